@@ -25,6 +25,7 @@ type netEnv struct {
 	echoTCP  *net.TCPListener
 	echoUDP  *net.UDPConn
 	echoUDP2 *net.UDPConn
+	greetTCP *net.TCPListener // target that speaks first: sends greeting, then echoes
 	dnsUDP   *net.UDPConn
 	dnsTCP   *net.TCPListener
 	wg       sync.WaitGroup
@@ -80,11 +81,16 @@ func newNetEnv() (*netEnv, error) {
 	if err != nil {
 		return nil, err
 	}
+	e.greetTCP, err = net.ListenTCP("tcp4", &net.TCPAddr{IP: net.ParseIP("127.0.0.1")})
+	if err != nil {
+		return nil, err
+	}
 	e.dnsTCP, e.dnsUDP, _, err = bindBoth("127.0.0.1")
 	if err != nil {
 		return nil, err
 	}
 	e.wg.Go(e.serveEchoTCP)
+	e.wg.Go(e.serveGreetTCP)
 	e.wg.Go(e.serveEchoUDP)
 	e.wg.Go(e.serveDNSUDP)
 	e.wg.Go(e.serveDNSTCP)
@@ -99,6 +105,7 @@ func (e *netEnv) close() {
 	e.echoTCP.Close()
 	e.echoUDP.Close()
 	e.echoUDP2.Close()
+	e.greetTCP.Close()
 	e.dnsUDP.Close()
 	e.dnsTCP.Close()
 	e.wg.Wait()
@@ -114,6 +121,26 @@ func (e *netEnv) serveEchoTCP() {
 		go func() {
 			defer c.Close()
 			c.SetDeadline(time.Now().Add(30 * time.Second))
+			io.Copy(c, c)
+		}()
+	}
+}
+
+const greeting = "HELLO-FROM-TARGET\n"
+
+func (e *netEnv) serveGreetTCP() {
+	for {
+		c, err := e.greetTCP.AcceptTCP()
+		if err != nil {
+			return
+		}
+		e.tcpAccepted.Add(1)
+		go func() {
+			defer c.Close()
+			c.SetDeadline(time.Now().Add(30 * time.Second))
+			if _, err := c.Write([]byte(greeting)); err != nil {
+				return
+			}
 			io.Copy(c, c)
 		}()
 	}
@@ -446,6 +473,27 @@ func tcpExchange(p *Probe, addr, target string) probeResult {
 		}
 	default:
 		return fail("unknown tcp probe kind")
+	}
+	if p.Silent {
+		// payload-less connect: only what the proxy protocol itself needs is sent, so a relay that
+		// waits for an initial payload really waits (and times out) before it connects upstream
+		if len(pre) > 0 {
+			if _, err := c.Write(pre); err != nil {
+				return fail("write request: %v", err)
+			}
+			pre = nil
+		}
+		if p.Greet {
+			g := make([]byte, len(greeting))
+			if _, err := io.ReadFull(c, g); err != nil {
+				return fail("read greeting of the target: %v", err)
+			}
+			if string(g) != greeting {
+				return fail("greeting mismatch: %q", g)
+			}
+		} else {
+			time.Sleep(time.Duration(p.SilentMs) * time.Millisecond)
+		}
 	}
 	if _, err := c.Write(append(pre, payload...)); err != nil {
 		return fail("write payload: %v", err)
